@@ -202,7 +202,12 @@ func c14Scripted(fctx frugal.FContext) (string, error) {
 	case strings.HasPrefix(tok, "s:"):
 		return string(unhx(tok[2:])), nil
 	case strings.HasPrefix(tok, "d:"):
-		return "", &c14Err{Message: "declared " + tok[2:]}
+		msg := "declared " + tok[2:]
+		if big, ok := fctx.RequestHeader("x-big"); ok {
+			n, _ := strconv.Atoi(big)
+			msg += strings.Repeat("e", n)
+		}
+		return "", &c14Err{Message: msg}
 	case strings.HasPrefix(tok, "a:"):
 		t, _ := strconv.ParseInt(tok[2:], 10, 32)
 		return "", thrift.NewTApplicationException(int32(t), "scripted application exception")
@@ -316,6 +321,7 @@ func newC14Processor() *frugal.FBaseProcessor {
 	h := c14Handler{}
 	p.AddToProcessorMap("ping", &c14FPing{frugal.NewFBaseProcessorFunction(p.GetWriteMutex(), frugal.NewMethod(h, h.Ping, "Ping", nil))})
 	p.AddToProcessorMap("nop", &c14FNop{frugal.NewFBaseProcessorFunction(p.GetWriteMutex(), frugal.NewMethod(h, h.Nop, "Nop", nil))})
+	p.AddToProcessorMap("blob", &c14FBlob{frugal.NewFBaseProcessorFunction(p.GetWriteMutex(), frugal.NewMethod(h, h.Blob, "Blob", nil))})
 	p.AddToProcessorMap("fire", &c14FFire{frugal.NewFBaseProcessorFunction(p.GetWriteMutex(), frugal.NewMethod(h, h.Fire, "Fire", nil))})
 	return p
 }
@@ -339,14 +345,24 @@ type c14Req struct {
 	seqid    int32
 	args     string // ok<k> | req | bad<k>
 	outcome  string // s:<hex> | d:<n> | a:<int> | o
+	out      string // "" healthy | L<limit>:<fit> bounded output buffer | W<k> the k-th Write fails | FL Flush fails
 }
 
 func (q *c14Req) token() string {
-	return fmt.Sprintf("%s/%s/%s/%d/%d/%s/%s", hx(q.hdrBlock), q.env, hx([]byte(q.method)), q.mtype, q.seqid, q.args, q.outcome)
+	t := fmt.Sprintf("%s/%s/%s/%d/%d/%s/%s", hx(q.hdrBlock), q.env, hx([]byte(q.method)), q.mtype, q.seqid, q.args, q.outcome)
+	if q.out != "" {
+		t += "/" + q.out
+	}
+	return t
 }
 
 func c14ParseReq(tok string) (*c14Req, bool) {
 	f := strings.Split(tok, "/")
+	out := ""
+	if len(f) == 8 && c14ValidOut(f[7]) {
+		out = f[7]
+		f = f[:7]
+	}
 	if len(f) != 7 {
 		return nil, false
 	}
@@ -355,7 +371,7 @@ func c14ParseReq(tok string) (*c14Req, bool) {
 	if e1 != nil || e2 != nil || (f[1] != "1" && f[1] != "0" && f[1] != "n") {
 		return nil, false
 	}
-	return &c14Req{hdrBlock: unhx(f[0]), env: f[1], method: string(unhx(f[2])), mtype: mt, seqid: int32(sq), args: f[5], outcome: f[6]}, true
+	return &c14Req{hdrBlock: unhx(f[0]), env: f[1], method: string(unhx(f[2])), mtype: mt, seqid: int32(sq), args: f[5], outcome: f[6], out: out}, true
 }
 
 // c14WriteArgs writes the argument struct of the given class with the real Thrift protocol.
@@ -657,6 +673,53 @@ func c14Run(proto, mode string, reqs []*c14Req) (string, []*c14Reply, error, []c
 				}
 				stream = append(stream, raw[4:]...)
 			}
+		case "bounded", "fault": // ONE processor; each request with its own transports, output bounded / failing
+			for i, q := range reqs {
+				in := &thrift.TMemoryBuffer{Buffer: bytes.NewBuffer(c14Bytes(proto, q))}
+				var outT thrift.TTransport
+				var data func() []byte
+				switch kind, n, _ := c14OutKind(q); kind {
+				case "L":
+					ob := frugal.NewTMemoryOutputBuffer(uint(n))
+					outT = ob
+					data = func() []byte {
+						if !ob.HasWriteData() {
+							return nil
+						}
+						b := ob.Bytes() // what the NATS server publishes
+						if len(b) < 4 || int(uint32(b[0])<<24|uint32(b[1])<<16|uint32(b[2])<<8|uint32(b[3])) != len(b)-4 {
+							framingErr = errors.New("bounded buffer: frame size prefix does not match")
+							return nil
+						}
+						return b[4:]
+					}
+				case "W", "FL":
+					ft := &c14FaultTransport{failAt: -1, failFlush: kind == "FL"}
+					if kind == "W" {
+						ft.failAt = n
+					}
+					outT = ft
+					data = func() []byte {
+						if ft.triggered {
+							return nil // went to a dead peer
+						}
+						return ft.buf.Bytes()
+					}
+				default:
+					mb := thrift.NewTMemoryBuffer()
+					outT = mb
+					data = mb.Bytes
+				}
+				var err error
+				// the watchdog: a request with healthy transports must not wait for anything
+				if o := guard(2*time.Second, func() { err = proc.Process(pf.GetProtocol(in), pf.GetProtocol(outT)) }); o != "" {
+					results[i] = o
+					results = results[:i+1]
+					break
+				}
+				results[i] = class(q, err)
+				stream = append(stream, data()...)
+			}
 		case "concsep": // concurrent workers, each message with its own buffers (NATS server workers' shape)
 			outs := make([][]byte, len(reqs))
 			start := make(chan struct{})
@@ -764,12 +827,30 @@ func c14OpID(q *c14Req) string {
 var c14Known = map[string]struct {
 	oneway bool
 	throws map[string]bool
-}{"ping": {false, map[string]bool{"1": true}}, "nop": {false, nil}, "fire": {true, nil}}
+}{"ping": {false, map[string]bool{"1": true}}, "nop": {false, nil}, "fire": {true, nil}, "blob": {false, nil}}
 
 // c14Expect is the property's table, written without reference to the model: how many replies
 // the request must get (-1 = the statement does not say: 0 or 1), and kind / exception type /
 // payload of that reply.
 func c14Expect(q *c14Req) (count int, kind string, exType int32, payload string, cls string) {
+	count, kind, exType, payload, cls = c14ExpectHealthy(q)
+	switch ok, _, fits := c14OutKind(q); {
+	case ok == "W" || ok == "FL":
+		if count != 0 {
+			return 0, "", 0, "", cls + "/peer-gone" // nothing can reach a dead peer
+		}
+	case ok == "L" && !fits:
+		if cls == "unknown-method" {
+			return -1, "E", 1, "x", cls + "/too-large" // no smaller substitute echoes the name: unanswered or answered
+		}
+		if count == 1 && kind == "R" {
+			return 1, "E", 100, "x", cls + "/too-large"
+		}
+	}
+	return
+}
+
+func c14ExpectHealthy(q *c14Req) (count int, kind string, exType int32, payload string, cls string) {
 	if !c14HeaderOK(q) {
 		return 0, "", 0, "", "undecodable-header"
 	}
@@ -792,7 +873,7 @@ func c14Expect(q *c14Req) (count int, kind string, exType int32, payload string,
 	}
 	switch {
 	case strings.HasPrefix(q.outcome, "s:"):
-		if q.method == "nop" {
+		if q.method == "nop" || (q.method == "blob" && q.outcome == "s:-") {
 			return 1, "R", 0, "s:-", "success"
 		}
 		return 1, "R", 0, q.outcome, "success"
@@ -812,6 +893,9 @@ func c14Expect(q *c14Req) (count int, kind string, exType int32, payload string,
 func c14Oracle(mode string, reqs []*c14Req, replies []*c14Reply, perr error, real string) string {
 	if strings.HasPrefix(real, "panic") || real == "blocked" {
 		return "processing a request sequence: " + real
+	}
+	if strings.Contains(real, "blocked") || strings.Contains(real, "panic:") {
+		return "a request with healthy transports did not return after an earlier request's reply could not be written (processor wedged): " + strings.SplitN(real, " ", 2)[0]
 	}
 	if perr != nil {
 		return "the output is not a sequence of whole replies: " + perr.Error()
@@ -984,7 +1068,7 @@ var c14Unknown = []string{"", "pin", "pingg", "Ping", "PING", "nop ", "fires", "
 func c14GenOutcome(r *Rng, method string) string {
 	switch r.Intn(6) {
 	case 0, 1:
-		if method == "ping" {
+		if method == "ping" || method == "blob" {
 			return "s:" + hx(r.Bytes(r.Pick(0, 1, 3, 8, 20, 300)))
 		}
 		return "s:-"
@@ -1027,8 +1111,10 @@ func c14GenReq(r *Rng, idx int, positionSafe bool) (*c14Req, string) {
 		q.method = c14Unknown[r.Intn(len(c14Unknown))]
 	case kind < 62:
 		q.method = "ping"
-	case kind < 80:
+	case kind < 74:
 		q.method = "nop"
+	case kind < 84:
+		q.method = "blob"
 	default:
 		q.method = "fire"
 	}
@@ -1037,9 +1123,9 @@ func c14GenReq(r *Rng, idx int, positionSafe bool) (*c14Req, string) {
 	_, known := c14Known[q.method]
 	a := r.Intn(100)
 	switch {
-	case a < 65 || (q.method == "nop" && positionSafe):
+	case a < 65 || ((q.method == "nop" || q.method == "blob") && positionSafe):
 		q.args = "ok" + strconv.Itoa(r.Intn(3))
-	case a < 80 && known && q.method != "nop":
+	case a < 80 && known && q.method != "nop" && q.method != "blob":
 		q.args = "req"
 	case !positionSafe:
 		q.args = "bad" + strconv.Itoa(r.Intn(3))
@@ -1122,7 +1208,7 @@ func c14Minimise(proto, mode string, reqs []*c14Req) []*c14Req {
 func runC14(r *Rng, n int) {
 	for i := 0; i < n; i++ {
 		proto := r.PickS("bin", "cmp")
-		mode := r.PickS("shared", "simple", "sep", "sep", "http", "conc", "conc", "concsep")
+		mode := r.PickS("shared", "simple", "sep", "sep", "http", "conc", "conc", "concsep", "bounded", "bounded", "fault", "fault")
 		k := 1 + r.Intn(9)
 		if mode == "conc" || mode == "concsep" {
 			k = 2 + r.Intn(7)
@@ -1139,6 +1225,9 @@ func runC14(r *Rng, n int) {
 					continue
 				}
 				break
+			}
+			if mode == "bounded" || mode == "fault" {
+				Stat(c14GenOut(r, proto, mode, reqs[j], j == 0))
 			}
 			Stat(cls)
 			if _, known := c14Known[reqs[j].method]; known {
@@ -1200,7 +1289,7 @@ func init() {
 			return "bad-op", true
 		}
 		proto, mode := args[1], args[2]
-		if _, ok := c14Factories[proto]; !ok || (mode != "shared" && mode != "sep" && mode != "conc" && mode != "simple" && mode != "http" && mode != "concsep") {
+		if _, ok := c14Factories[proto]; !ok || (mode != "shared" && mode != "sep" && mode != "conc" && mode != "simple" && mode != "http" && mode != "concsep" && mode != "bounded" && mode != "fault") {
 			return "bad-op", true
 		}
 		var reqs []*c14Req
